@@ -10,6 +10,7 @@ import BufrModel.Drv.PathOp
 import BufrModel.Drv.CoderOp
 import BufrModel.Drv.ScriptOp
 import BufrModel.Drv.SectionsOp
+import BufrModel.Drv.WidthsOp
 open Lean Bufr.Drv
 
 /-- stateless operations: one line per op (keep sorted by property to ease merging) -/
@@ -33,6 +34,8 @@ def statefulOps : List (String × (DrvState → Json → J (DrvState × Json))) 
   ("dec-data", opDecData) ::
   ("enc-data", opEncData) ::
   ("gen-data", opGenData) ::
+  ("enc-data-widths", opEncDataWidths) ::
+  ("dec-subsets", opDecSubsets) ::
   []
 
 def dispatch (st : DrvState) (j : Json) : J (DrvState × Json) := do
